@@ -205,8 +205,8 @@ def run(prop, tier, replay_file=None):
                     todo.append((p, k, kind))
                 if cls == "save" and p["type"] in ("asa", "ios"):
                     todo.append((p, k, "nook"))
-                if cls == "job":
-                    todo.append((p, k, "jobfail"))
+                if cls == "job" and not any(t[0] is p and t[2] == "jobfail" for t in todo[-200:]):
+                    todo.append((p, k, "jobfail"))       # once per scenario: the final poll answers FAIL
 
     def runit(a):
         i, (p, fl, fk) = a
